@@ -248,6 +248,8 @@ void* trampoline(void* p) {
   t.finished = true;
   t.op = OP_DONE;
   if (g_active) schedule();
+  // from here on this OS thread runs its exit path (TLS destructors ...) outside the scheduler: hooked operations pass through
+  t_self = -1;
   return r;
 }
 
@@ -307,6 +309,7 @@ void yield(const char* label) {
 // ---- atomics pass (sched/tsanstub_nosan.cpp): an atomic operation of the code under test becomes a scheduling point once
 // its address has been touched by two different threads in this execution (thread-local use, e.g. a shared_ptr that never
 // leaves its thread, adds no points).  Fixed-size open-addressing table, reset with every execution (one process each).
+// (Making EVERY atomic operation a point while two threads are alive was tried: 9x the schedules for no additional finding.)
 namespace {
 struct AtomRec {
   const void* addr;
@@ -364,8 +367,13 @@ int pthread_mutex_lock(pthread_mutex_t* m) {
   point(OP_LOCK, "mutex_lock");
   MutexRec& r = mrec(m);
   if (r.owner == t_self) {
+    // relocking a mutex this thread already holds: fine for a recursive one, EDEADLK for an error-checking one, and a
+    // self-deadlock for a normal / adaptive one (glibc: kind 0 / 3) - report it instead of hanging for real
+    int kind = m->__data.__kind & 127;
+    if (kind == PTHREAD_MUTEX_TIMED_NP || kind == PTHREAD_MUTEX_ADAPTIVE_NP)
+      stuck(V_DEADLOCK, "deadlock: a thread locks a non-recursive mutex that it already holds");
     r.depth++;
-    return f(m);  // recursive mutex (or error): let the real one decide
+    return f(m);
   }
   r.owner = t_self;
   r.depth = 1;
